@@ -5,6 +5,7 @@ package main
 import (
 	"fmt"
 	"go/token"
+	"go/types"
 	"strings"
 
 	"golang.org/x/tools/go/ssa"
@@ -68,35 +69,37 @@ func ruleR23() *Rule {
 			}
 			engineMethods := map[string]bool{"SearchWithoutIDs": true, "SearchWithIDs": true, "SearchClustersFromIVFIndex": true,
 				"ObtainClusterVectorCountsFromIVFIndex": true, "ObtainClustersWithDistancesFromIVFIndex": true}
-			nSearch := 0
-			for _, fn := range p.ZapFuncs {
-				if fn.Parent() != ivi {
-					continue
+			const (
+				evNonNil = 1 << 0
+				evDimOK  = 1 << 1
+			)
+			type clInfo struct {
+				qv *ssa.Parameter
+				pa *pathAnalysis
+			}
+			infos := map[*ssa.Function]*clInfo{}
+			analyse := func(fn *ssa.Function) *clInfo {
+				if ci, ok := infos[fn]; ok {
+					return ci
 				}
+				// the query vector: the []float32 parameter of the search closure
 				var qv *ssa.Parameter
 				for _, pr := range fn.Params {
-					if pr.Name() == "qVector" {
-						qv = pr
+					if sl, ok := pr.Type().Underlying().(*types.Slice); ok {
+						if bt, ok := sl.Elem().Underlying().(*types.Basic); ok && bt.Kind() == types.Float32 && qv == nil {
+							qv = pr
+						}
 					}
 				}
-				const (
-					evNonNil = 1 << 0
-					evDimOK  = 1 << 1
-				)
-				pa := newPathAnalysis(fn, func(ssa.Instruction, uint64, bool) []uint64 { return nil })
-				pa.edgeTr = func(pred *ssa.BasicBlock, succIdx int, ev uint64) uint64 {
-					iff, ok := pred.Instrs[len(pred.Instrs)-1].(*ssa.If)
-					if !ok {
-						return ev
-					}
-					bo, ok := iff.Cond.(*ssa.BinOp)
+				condTr := func(cond ssa.Value, outcome bool, ev uint64, actual func(ssa.Value) ssa.Value) uint64 {
+					bo, ok := cond.(*ssa.BinOp)
 					if !ok || (bo.Op != token.EQL && bo.Op != token.NEQ) {
 						return ev
 					}
-					equalEdge := (bo.Op == token.EQL) == (succIdx == 0)
+					equal := (bo.Op == token.EQL) == outcome
 					// index == nil
 					if (isNilConst(bo.Y) && isCell(bo.X, idxCell)) || (isNilConst(bo.X) && isCell(bo.Y, idxCell)) {
-						if !equalEdge {
+						if !equal {
 							return ev | evNonNil
 						}
 						return ev &^ evNonNil
@@ -116,17 +119,122 @@ func ruleR23() *Rule {
 							return false
 						}
 						b, ok := call.Call.Value.(*ssa.Builtin)
-						return ok && b.Name() == "len" && qv != nil && call.Call.Args[0] == ssa.Value(qv)
+						return ok && b.Name() == "len" && qv != nil && actual(call.Call.Args[0]) == ssa.Value(qv)
 					}
 					if (isD(bo.X) && isLenQ(bo.Y)) || (isD(bo.Y) && isLenQ(bo.X)) {
-						if equalEdge {
+						if equal {
 							return ev | evDimOK
 						}
 						return ev &^ evDimOK
 					}
 					return ev
 				}
+				pa := newPathAnalysis(fn, func(ssa.Instruction, uint64, bool) []uint64 { return nil })
+				pa.condTr = condTr
+				pa.edgeTr = func(pred *ssa.BasicBlock, succIdx int, ev uint64) uint64 {
+					iff, ok := pred.Instrs[len(pred.Instrs)-1].(*ssa.If)
+					if !ok {
+						return ev
+					}
+					return condTr(iff.Cond, succIdx == 0, ev, pa.actual)
+				}
 				pa.run(0)
+				ci := &clInfo{qv, pa}
+				infos[fn] = ci
+				return ci
+			}
+			// closureCallee: the closure of InterpretVectorIndex a call resolves to
+			closureCallee := func(cs ssa.CallInstruction) *ssa.Function {
+				if f := staticCallee(cs); f != nil {
+					return f
+				}
+				if cs.Common().IsInvoke() {
+					return nil
+				}
+				if mc, ok := root(cs.Common().Value).(*ssa.MakeClosure); ok {
+					if f, ok := mc.Fn.(*ssa.Function); ok {
+						return f
+					}
+				}
+				return nil
+			}
+			// guarded: before `at` in closure fn the index is known non-nil and the
+			// query known to have its dimension — in fn itself or, when fn is a
+			// local helper closure that is handed the query, at every call of it
+			var guarded func(fn *ssa.Function, at ssa.Instruction, depth int) (bool, bool)
+			guarded = func(fn *ssa.Function, at ssa.Instruction, depth int) (bool, bool) {
+				ci := analyse(fn)
+				nn, dim := true, true
+				st := ci.pa.statesBefore(at)
+				if len(st) == 0 {
+					return true, true // unreachable
+				}
+				for _, ev := range st {
+					if ev&evNonNil == 0 {
+						nn = false
+					}
+					if ev&evDimOK == 0 {
+						dim = false
+					}
+				}
+				if (nn && dim) || depth >= 2 || ci.qv == nil {
+					return nn, dim
+				}
+				qi := -1
+				for i, pr := range fn.Params {
+					if pr == ci.qv {
+						qi = i
+					}
+				}
+				// free variables come first in fn.Params? no: Params are the declared parameters only
+				nCallers := 0
+				cnn, cdim := true, true
+				for _, g := range p.ZapFuncs {
+					if g.Parent() != ivi || g == fn {
+						continue
+					}
+					for _, cs := range callSites(g) {
+						if closureCallee(cs) != fn {
+							continue
+						}
+						nCallers++
+						gi := analyse(g)
+						args := cs.Common().Args
+						if qi < 0 || qi >= len(args) || gi.qv == nil || root(args[qi]) != ssa.Value(gi.qv) {
+							return nn, dim // handed another vector than the caller's query
+						}
+						a, b := guarded(g, cs, depth+1)
+						cnn, cdim = cnn && a, cdim && b
+					}
+				}
+				// the helper must not escape to other callers
+				for _, mc := range closureSites(fn) {
+					for _, r := range *mc.Referrers() {
+						switch x := r.(type) {
+						case *ssa.Store:
+							if cellOf(x.Addr) == nil {
+								return nn, dim
+							}
+						case ssa.CallInstruction:
+							if x.Common().Value != ssa.Value(mc) {
+								return nn, dim
+							}
+						case *ssa.DebugRef:
+						default:
+							return nn, dim
+						}
+					}
+				}
+				if nCallers == 0 {
+					return nn, dim
+				}
+				return nn || cnn, dim || cdim
+			}
+			nSearch := 0
+			for _, fn := range p.ZapFuncs {
+				if fn.Parent() != ivi {
+					continue
+				}
 				counts := map[string]int{}
 				for _, cs := range callSites(fn) {
 					iv, m, ok := faissMethod(cs)
@@ -136,15 +244,7 @@ func ruleR23() *Rule {
 					nSearch++
 					counts[m]++
 					key := fmt.Sprintf("%s/%s#%d", funcShortName(fn), m, counts[m])
-					nn, dim := true, true
-					for _, ev := range pa.statesBefore(cs) {
-						if ev&evNonNil == 0 {
-							nn = false
-						}
-						if ev&evDimOK == 0 {
-							dim = false
-						}
-					}
+					nn, dim := guarded(fn, cs, 0)
 					c.check(nn && dim, key+"/guarded", c.pos(cs), "the engine call "+m+" is reached only when the field has an index and the query has the index's dimension",
 						fmt.Sprintf("not guarded on every path (index non-nil: %v, dimension equal: %v): a query of the wrong dimension reaches the native engine", nn, dim), "call: "+describeInstr(p, cs))
 					if m == "SearchWithoutIDs" {
